@@ -182,7 +182,10 @@ impl<R: std::io::BufRead> Parser<R> {
     ) -> Result<ast::FunctionBody, crate::error::ParseError> {
         let tokens = self.tokenize()?;
         let parse_result =
-            peg::token_parser::function_parens_and_body(&Tokens { tokens: &tokens }, &self.options);
+            peg::token_parser::standalone_function_parens_and_body(
+            &Tokens { tokens: &tokens },
+            &self.options,
+        );
         parse_result_to_error(parse_result, &tokens)
     }
 
